@@ -121,6 +121,9 @@ def clean_caches():
             pass
 
 
+DYN_ARG_RETURNERS = set()
+
+
 def dynamic(ctx, H, variants, seeds, fresh_sample, rng):
     hits = []
     stats = dict(evaluations=0, cases=0, ok_cases=0, raised={}, by_variant={}, fresh_compared=0, fresh_errors=[])
@@ -128,14 +131,16 @@ def dynamic(ctx, H, variants, seeds, fresh_sample, rng):
     samples = []
     arg_labels = {}          # (callable, call idx) -> labels found modified (for read-only failures)
     dyn_arg_writers, dyn_cache_returners = set(), set()
+    dyn_arg_returners = DYN_ARG_RETURNERS
+    dyn_arg_returners.clear()
     jobs, job_digest = [], []
     for seed in seeds:
         for (k, i, call, spec) in all_cases():
             for v in variants:
                 if 'only' in spec and v[0] not in spec['only']:
                     continue
-                clauses = ('args', 'repeat', 'uninit', 'arg-reuse') if spec.get('cache_accessor') else \
-                    ('args', 'repeat', 'uninit', 'result-mutation', 'arg-reuse')
+                clauses = ('args', 'repeat', 'uninit', 'arg-reuse', 'result-aliases-arg') if spec.get('cache_accessor') else \
+                    ('args', 'repeat', 'uninit', 'result-mutation', 'arg-reuse', 'result-aliases-arg')
                 try:
                     fails, info = H['check_case'](call, v, seed, clauses)
                 except Exception as e:       # noqa
@@ -169,6 +174,9 @@ def dynamic(ctx, H, variants, seeds, fresh_sample, rng):
                     elif clause == 'result-mutation':
                         dyn_cache_returners.add(k)
                         kd = detail.split('differs at ')[1].split(',')[0].strip()
+                    elif clause == 'result-aliases-arg':
+                        dyn_arg_returners.add(k)
+                        kd = detail.split('the argument ')[1].strip()
                     elif clause == 'arg-reuse':
                         kd = '+'.join(lab for lab, arr, base, b in H['one_call'](call, v, seed, None)[0].made)
                     else:
@@ -416,7 +424,7 @@ def run(ctx):
                            '; '.join('%s: %s' % kw for kw in untranslated_req)))
         v = alias_prog.verdicts(res)
         preview = {alias_prog.public_key(q): v[q] for q in v if alias_prog.public_key(q) in SP.SPECS
-                   and (v[q]['arg_writes'] or v[q]['returns_cached'])}
+                   and (v[q]['arg_writes'] or v[q]['returns_cached'] or v[q]['returns_args'])}
     # ---- 1. theorems
     pr = vlib.coq_props('C18')
     ctx.cov.update(obligations=len(pr['theorems']), discharged=pr['discharged'], theorems=pr['theorems'],
@@ -432,7 +440,9 @@ def run(ctx):
         ex = res['exceptions'] if res is not None else {}
         unexpected = sorted(k for k, w in preview.items()
                             if (set(w['arg_writes']) - set(ex.get('unproved_positions', {}).get(k, [])) and k not in ex.get('writers', []))
-                            or (w['returns_cached'] and k not in ex.get('returners', []) + ex.get('accessors', [])))
+                            or (w['returns_cached'] and k not in ex.get('returners', []) + ex.get('accessors', []))
+                            or (set(w['returns_args']) - set(ex.get('returned_args_allowed', {}).get(k, []))
+                                and k not in ex.get('returners', []) + ex.get('accessors', [])))
         broken.append(('proof', pr['broken'] or 'props/C18.v',
                        (pr['error'] or '') + ' | callables the alias checker rejects outside the listed exceptions: %s'
                        % ', '.join('%s %r' % (k, preview[k]) for k in unexpected)))
@@ -460,17 +470,19 @@ def run(ctx):
         hits, st, dyn_w, dyn_r = [], dict(evaluations=0, cases=0, ok_cases=0, raised={}, by_variant={}, fresh_compared=0,
                                           distinct=0, samples=[], fresh_errors=[]), set(), set()
     # ---- 3. translation validation: the static verdicts against the observed behaviour
-    ex = res['exceptions'] if res is not None else dict(writers=[], returners=[], unproved=[], accessors=[])
+    ex = res['exceptions'] if res is not None else dict(writers=[], returners=[], unproved=[], accessors=[], returned_args_allowed={})
     static_unsafe_args = {k for k, w in preview.items() if w['arg_writes']}
     static_unsafe_ret = {k for k, w in preview.items() if w['returns_cached']}
+    static_ret_args = {k for k, w in preview.items() if w['returns_args']}
     contradicted = sorted((set(dyn_w) & set(translated)) - static_unsafe_args) + \
-        sorted((set(dyn_r) & set(translated)) - static_unsafe_ret)
+        sorted((set(dyn_r) & set(translated)) - static_unsafe_ret) + \
+        sorted((set(DYN_ARG_RETURNERS) & set(translated)) - static_ret_args)
     agree = len([k for k in translated if (k in dyn_w) <= (k in static_unsafe_args) and (k in dyn_r) <= (k in static_unsafe_ret)])
     if contradicted:
         broken.append(('translation-validation', 'alias programs vs observed behaviour',
-                       'the checker accepts %s but the run modified an argument / returned a cached array' % contradicted))
+                       'the checker accepts %s but the run modified an argument / returned a cached array / returned an argument array' % contradicted))
     ctx.cov.update(evaluations=st['evaluations'], distinct_nontrivial=st['distinct'],
-                   rule='one evaluation = one call of a public callable on freshly built arguments (5 per case: '
+                   rule='one evaluation = one call of a public callable on freshly built arguments (5 per case; the first result is also walked for memory shared with the arguments: '
                         'NaN-poisoned np.empty, repeat, differently poisoned np.empty, after overwriting all returned '
                         'arrays, after overwriting the argument arrays of the earlier calls; +1 per fresh-process repeat); a case is distinct by (callable, call expression, dtype, '
                         'layout) and counted only when the call returned normally',
